@@ -45,16 +45,16 @@ impl TypeParameters {
         if self.unused.is_empty() {
             return None;
         }
+        // Emit in declaration order: `unused` is ordered by concrete type id, so it is
+        // only consulted for membership here.
+        let mut unused = self.params.iter().filter(|p| self.unused.contains(p));
         let params = if self.unused.len() == 1 {
-            let param = self
-                .unused
-                .iter()
+            let param = unused
                 .next()
                 .expect("Checked for exactly one unused param");
             quote! { #param }
         } else {
-            let params = self.unused.iter();
-            quote! { ( #( #params ), * ) }
+            quote! { ( #( #unused ), * ) }
         };
         Some(syn::parse_quote! {::core::marker::PhantomData<#params> })
     }
